@@ -370,10 +370,42 @@ func (set *Set) add(hosts ...*Host) {
 	if len(hosts) == 0 {
 		return
 	}
+	set.addNoCache(hosts...)
+	set.buildHealthyCache()
+}
+
+// addNoCache updates the maps, the caller must rebuild the healthy cache.
+func (set *Set) addNoCache(hosts ...*Host) {
 	for _, host := range hosts {
+		if host == nil {
+			continue
+		}
+		if old, ok := set.all[host.Addr]; ok {
+			if old == host || IsEqual(old, host) {
+				// already a member: keep the stored object, established
+				// connections are watching it and it knows its health.
+				continue
+			}
+			// same address with another type: the old object leaves its tier.
+			set.dropNoCache(old)
+		}
 		set.all[host.Addr] = host
+		switch host.Type {
+		case TypeMain:
+			set.healthyMain[host.Addr] = host
+		case TypeBackup:
+			set.healthyBackup[host.Addr] = host
+		}
 	}
-	set.addToHealthy(hosts...)
+}
+
+// dropNoCache removes the stored object from the maps and notifies the
+// connections which are watching it.
+func (set *Set) dropNoCache(stored *Host) {
+	delete(set.all, stored.Addr)
+	delete(set.healthyMain, stored.Addr)
+	delete(set.healthyBackup, stored.Addr)
+	stored.markRemoved()
 }
 
 // Remove removes host from the set.
@@ -387,11 +419,23 @@ func (set *Set) remove(hosts ...*Host) {
 	if len(hosts) == 0 {
 		return
 	}
+	set.removeNoCache(hosts...)
+	set.buildHealthyCache()
+}
+
+// removeNoCache updates the maps, the caller must rebuild the healthy cache.
+func (set *Set) removeNoCache(hosts ...*Host) {
 	for _, host := range hosts {
-		delete(set.all, host.Addr)
+		if host == nil {
+			continue
+		}
+		// NOTE: the caller usually passes an object built from the endpoint
+		// address, not the stored one which the connections are watching.
+		if stored, ok := set.all[host.Addr]; ok {
+			set.dropNoCache(stored)
+		}
 		host.markRemoved()
 	}
-	set.removeFromHealthy(hosts...)
 }
 
 // MarkHostHealthy marks the given host as healthy.
@@ -401,7 +445,7 @@ func (set *Set) MarkHostHealthy(host *Host) bool {
 	}
 	set.Lock()
 	defer set.Unlock()
-	if _, ok := set.all[host.Addr]; !ok {
+	if stored, ok := set.all[host.Addr]; !ok || stored != host {
 		return false
 	}
 	set.addToHealthy(host)
@@ -415,7 +459,7 @@ func (set *Set) MarkHostUnhealthy(host *Host) bool {
 	}
 	set.Lock()
 	defer set.Unlock()
-	if _, ok := set.all[host.Addr]; !ok {
+	if stored, ok := set.all[host.Addr]; !ok || stored != host {
 		return false
 	}
 	set.removeFromHealthy(host)
@@ -487,8 +531,12 @@ func (set *Set) Exist(addr string) bool {
 func (set *Set) ReplaceAll(hosts []*Host) {
 	set.Lock()
 	defer set.Unlock()
+	// NOTE: update everything first and publish the healthy cache once,
+	// readers must not see the half replaced set (e.g. only backups left
+	// because the main hosts were removed first).
 	for _, host := range set.all {
-		set.remove(host)
+		set.dropNoCache(host)
 	}
-	set.add(hosts...)
+	set.addNoCache(hosts...)
+	set.buildHealthyCache()
 }
